@@ -1,5 +1,6 @@
 mod case;
 mod cfg;
+mod compat;
 mod corrupt;
 mod crash;
 mod fault;
@@ -53,6 +54,7 @@ fn plan(prop: &str, tier: &str) -> (&'static str, u64) {
         "C11" => ("fault", if thorough { 6_000 } else { 320 }),
         "C10" => ("long", if thorough { 1_600 } else { 160 }),
         "C16" => ("cfg", if thorough { 1_500 } else { 128 }),
+        "C15" => ("compat", if thorough { 200_000 } else { 8_000 }),
         "C12" => ("corrupt", if thorough { 4_000 } else { 480 }),
         _ => ("none", 0),
     }
@@ -317,6 +319,15 @@ fn cmd_check(prop: &str, tier: &str) -> i32 {
             }
         }
     }
+    if prop == "C15" {
+        // the committed byte-exact golden images, independent of the vendored pinned copy
+        let mut gv = Verdict::default();
+        compat::check_golden(&format!("{}/golden", root), &mut gv);
+        let gcase = Case::new("C15", "golden", 0);
+        gv.stats.commits = gv.counters.get("golden_files_checked").copied().unwrap_or(0);
+        gv.stats.steps = 10;
+        acc.add(&gcase, &gv);
+    }
     harness_errors.extend(acc.harness.iter().cloned());
 
     // minimise and classify
@@ -558,6 +569,13 @@ fn main() {
         Some("worker") if args.len() >= 8 => cmd_worker(&args[1..]),
         Some("replay") if args.len() >= 2 => cmd_replay(&args[1]),
         Some("oneshot") => cfg::oneshot(),
+        Some("make-golden") if args.len() >= 2 => match compat::make_golden(&args[1]) {
+            Ok(()) => 0,
+            Err(e) => {
+                eprintln!("{}", e);
+                2
+            }
+        },
         Some("run") if args.len() >= 3 => cmd_run(&args[1], &args[2], args.get(3).map(|s| s == "-v").unwrap_or(false)),
         _ => {
             eprintln!("usage: jsim check <Cxx> <quick|thorough> | replay <file> | run <Cxx> <index|#seed> [-v]");
